@@ -6,6 +6,7 @@ import (
 	"encoding/json"
 	"fmt"
 	"math/rand"
+	"os"
 	"regexp"
 	"sort"
 	"strings"
@@ -173,6 +174,12 @@ func (e *Env) Emit(seam string, data []byte) {
 		h = (h ^ uint64(b)) * 1099511628211
 	}
 	e.out.Emit = append(e.out.Emit, fmt.Sprintf("%s len=%d fnv=%016x", seam, len(data), h))
+	if dbg := os.Getenv("VERIF_EMIT_DEBUG"); dbg != "" {
+		if f, err := os.OpenFile(dbg+"."+e.Plan.Variant, os.O_APPEND|os.O_CREATE|os.O_WRONLY, 0o644); err == nil {
+			fmt.Fprintf(f, "#%d %s len=%d\n%q\n", len(e.out.Emit), seam, len(data), data)
+			f.Close()
+		}
+	}
 }
 
 // SetSample stores a short human-readable description of the case.
